@@ -1009,6 +1009,17 @@ func (ctx *RenderContext) evaluateExpression(node Node) (interface{}, error) {
 				}
 			}
 
+			// A module that {% import %} made holds macros only: a name it lacks is
+			// not found; it does not turn into a function or a macro of the calling
+			// template that happens to have that name
+			if moduleMap, ok := moduleObj.(map[string]interface{}); ok {
+				for _, member := range moduleMap {
+					if _, isMacro := member.(*MacroNode); isMacro {
+						return nil, fmt.Errorf("macro '%s' not found in the imported module", n.name)
+					}
+				}
+			}
+
 			// _self.name() is the macro of this template, also when a function
 			// of that name exists (as the bare call name() is)
 			if self, ok := n.moduleExpr.(*VariableNode); ok && self.name == "_self" {
